@@ -418,7 +418,40 @@ class C16(Prop):
                 out.append({'ids': ids, 'clock': list(FakeDT.CALLS)})
             except Exception as ex:
                 out.append(type(ex).__name__)
-        return {'windows': out, 'create_clock': sorted(create_clock), 'created': created}
+        res = {'windows': out, 'create_clock': sorted(create_clock), 'created': created}
+        # -- not modelled, judged by the oracle alone: the same window lookups (ordered, explicit end) when the store answers
+        #    one read request with an error, and when two lookups through one cassette are consumed interleaved
+        ws = [w for w in case['windows'] if w['e'] is not None and w['s'] is not None][:2]
+
+        def look(w):
+            FakeDT.NOW = instant(w['now'])
+            return cassette.iter_recording_ids(w['cat'], start_date=instant(w['s']), end_date=instant(w['e']),
+                                               metadata=win_filter(w) or None, limit=w.get('lim'), random_results=False)
+        extra = {'seq': [], 'faults': [], 'interleaved': None}
+        try:
+            for w in ws:
+                extra['seq'].append(list(look(w)))
+            if ws:
+                for n in (1, 2, 3, 5):
+                    st.read_fault = n
+                    try:
+                        extra['faults'].append([n, 'ids', list(look(ws[0]))])
+                    except fake_s3.ReadFault:
+                        extra['faults'].append([n, 'raised'])
+                    except Exception as ex:
+                        extra['faults'].append([n, 'other', type(ex).__name__])
+                    finally:
+                        st.read_fault = None
+            if len(ws) == 2:
+                it_a = iter(look(ws[0]))
+                first = next(it_a, None)
+                b = list(look(ws[1]))
+                a = ([] if first is None else [first]) + list(it_a)
+                extra['interleaved'] = [a, b]
+        except Exception as ex:
+            extra['error'] = type(ex).__name__
+        res['_extra'] = extra
+        return res
 
     # ------------------------------------------------------------------------------------------------------
     # the model
@@ -427,6 +460,9 @@ class C16(Prop):
         req = {'m': 'c16.multi'}
         req.update({k: v for k, v in case.items() if not k.startswith('_')})
         return [req]
+
+    def impl_view(self, case, impl):
+        return {k: v for k, v in impl.items() if not k.startswith('_')}
 
     def model_transcript(self, case, answers):
         out = []
@@ -489,6 +525,22 @@ class C16(Prop):
                         '%s (saved %s)' % (i, fmt(saved[i]['t'])) for i in missing)))
             elif len(ids) != min(lim, len(want_ids)):
                 fails.append('%s: %d ids listed, %d recordings in the window' % (name, len(ids), len(want_ids)))
+        ex = impl.get('_extra') or {}
+        if ex.get('error'):
+            fails.append('repeating the first windows (ordered) raised %s' % ex['error'])
+        ws = [w for w in case['windows'] if w['e'] is not None and w['s'] is not None][:2]
+        for f in ex.get('faults', []):
+            if f[1] == 'other':
+                fails.append('window %s with read request %d answered by an error: the lookup raised %s' % (self.describe(ws[0]), f[0], f[2]))
+            elif f[1] == 'ids' and f[2] != ex['seq'][0]:
+                fails.append('window %s with read request %d answered by an error: the lookup returned %r without raising - it returns '
+                             '%r when the store is healthy' % (self.describe(ws[0]), f[0], f[2], ex['seq'][0]))
+        if ex.get('interleaved'):
+            a, b = ex['interleaved']
+            if a != ex['seq'][0] or b != ex['seq'][1]:
+                fails.append('two lookups through one cassette consumed interleaved (one id of %s, all of %s, the rest of the first): '
+                             '%r and %r; one after the other they return %r and %r'
+                             % (self.describe(ws[0]), self.describe(ws[1]), a, b, ex['seq'][0], ex['seq'][1]))
         return fails
 
     def nontrivial(self, case, impl):
